@@ -393,8 +393,7 @@ Lemma sync_yield_owner : forall d callee req opts args kw inv,
     cget (d_invs d) (callee, req) = Some inv ->
     sync_yield d callee req opts args kw =
     (if opt_bool opts "progress" then d
-     else if inv_inprogress inv then yield_state d (callee, req) inv
-          else drop_call (yield_state d (callee, req) inv) (inv_call inv) (callee, req),
+     else drop_call (yield_state d (callee, req) inv) (inv_call inv) (callee, req),
      match cget (d_calls d) (inv_call inv) with
      | Some caller => [result_msg caller (inv_call inv) (opt_bool opts "progress") args kw]
      | None => []
@@ -404,7 +403,7 @@ Proof.
   destruct (opt_bool opts "progress"); cbn [orb].
   - destruct (cget (d_calls d) (inv_call inv)); reflexivity.
   - fold (yield_state d (callee, req) inv). rewrite ys_calls.
-    destruct (cget (d_calls d) (inv_call inv)); destruct (inv_inprogress inv); reflexivity.
+    destruct (cget (d_calls d) (inv_call inv)); reflexivity.
 Qed.
 
 Lemma sync_error_unknown : forall d callee req det err args kw,
